@@ -314,6 +314,7 @@ class State:
         t.pc = list(s.pc); t.frames = [f.clone() for f in s.frames]
         t.next_obj = s.next_obj; t.steps = s.steps; t.syms = list(s.syms)
         t.nallocs = s.nallocs; t.failed_alloc = s.failed_alloc
+        t.files = dict(getattr(s, 'files', {}))
         return t
     def wobj(s, oid):
         if oid not in s.owned:
@@ -339,7 +340,7 @@ class Engine:
         s.violations = []; s.paths = 0; s.queries = 0; s.qtime = 0.0
         s.parsed = {}
         s.ginit_state = None
-        s.fnptr = {}; s.fnobj = {}
+        s.fnptr = {}; s.fnobj = {}; s.crc_summary = True; s.crc_memo = {}; Engine.overrides = {'@carquet_crc32'}
         s.total_steps = 0
     # ---- solver helpers
     def check(s, st, extra):
@@ -962,6 +963,53 @@ class Engine:
             bad = c == 0
             if s.check(st, [bad]): raise Violation('assert', msg, s.model(st, [bad]))
             return 0
+        if n == 'symx_fopen_mem':
+            oid = st.alloc(8, 'file', 'FILE'); st.mem[oid].data = []; st.mem[oid].size = 8
+            if not hasattr(st, 'files'): st.files = {}
+            st.files = dict(getattr(st, 'files', {})); st.files[oid] = []
+            return Ptr(oid, 0)
+        if n == 'fwrite':
+            ptr, sz, cnt, fp = a
+            assert is_conc(sz) and is_conc(cnt)
+            nbytes = sz * cnt
+            if nbytes:
+                so = s.resolve_off(st, s.int_to_ptr(st, ptr), nbytes, 'fwrite read')
+                data = st.mem[ptr.obj].data[so[0]:so[0] + nbytes]
+                st.files = dict(st.files); st.files[fp.obj] = st.files[fp.obj] + data
+            return cnt
+        if n in ('fflush', 'fclose'): return 0
+        if n == 'symx_file_size': return len(st.files[a[0].obj])
+        if n == 'symx_file_read':
+            fp, dstp, cap = a
+            data = st.files[fp.obj]
+            assert len(data) <= cap
+            o = st.wobj(dstp.obj); o.data[dstp.off:dstp.off + len(data)] = data
+            return len(data)
+        if n == 'strdup':
+            ln = s.external(st, fr, '@strlen', [a[0]], work, None)
+            p = s.malloc(st, ln + 1, work, dst)
+            if p.obj: s.memcpy(st, p, a[0], ln + 1)
+            return p
+        if n == 'strcmp':
+            pa, pb = a; i = 0
+            while True:
+                x = s.load_val(st, Ptr(pa.obj, pa.off + i), 1); y = s.load_val(st, Ptr(pb.obj, pb.off + i), 1)
+                if not (is_conc(x) and is_conc(y)): raise Violation('engine-limit', 'symbolic strcmp')
+                if x != y: return 0xFFFFFFFF if x < y else 1
+                if x == 0: return 0
+                i += 1
+        if n == 'carquet_crc32' and s.crc_summary:
+            ptr, ln = a
+            assert is_conc(ln)
+            if ln == 0: return 0
+            so = s.resolve_off(st, ptr, ln, 'crc read')
+            data = st.mem[ptr.obj].data[so[0]:so[0] + ln]
+            if all(isinstance(b, int) for b in data):
+                import zlib; return zlib.crc32(bytes(data)) & 0xFFFFFFFF
+            key = tuple(b if isinstance(b, int) else b.get_id() for b in data)
+            if key not in s.crc_memo:
+                v = z3.BitVec(f"crc#{len(s.crc_memo)}", 32); s.crc_memo[key] = v
+            return s.crc_memo[key]
         if n in ('memcmp', 'bcmp'):
             pa, pb, cnt = s.int_to_ptr(st, a[0]), s.int_to_ptr(st, a[1]), a[2]
             if not is_conc(cnt): raise Violation('engine-limit', 'symbolic memcmp length')
